@@ -285,6 +285,9 @@ func DecodeAlstSampleGroupEntry(name string, length uint32, sr bits.SliceReader)
 		entry.SampleOffset[i] = sr.ReadUint32()
 	}
 
+	if uint64(length) < entry.Size() {
+		return nil, fmt.Errorf("alst entry: length %d too small for roll_count %d", length, entry.RollCount)
+	}
 	remaining := int(length-uint32(entry.Size())) / 4
 	if remaining <= 0 {
 		return entry, sr.AccError()
